@@ -35,7 +35,35 @@ impl log::Log for NullLogger {
     }
     fn log(&self, record: &log::Record) {
         // format the message (this is what evaluates the arguments), then drop it
-        let _ = std::hint::black_box(format!("{}", record.args()).len());
+        let text = format!("{}", record.args());
+        let _ = std::hint::black_box(text.len());
+        // A DLT logger: every few records the text is itself packed into a DLT message and serialised, on the same
+        // thread and in the middle of whatever the crate was doing (re-entrancy through the log facade).
+        thread_local! { static IN_LOGGER: std::cell::Cell<bool> = std::cell::Cell::new(false); }
+        if text.len() % 3 == 0 && !IN_LOGGER.with(|f| f.replace(true)) {
+            use dlt_core::dlt::*;
+            let _ = std::panic::catch_unwind(|| {
+                let conf = MessageConfig {
+                    version: 1,
+                    counter: 0,
+                    endianness: Endianness::Big,
+                    ecu_id: Some("LOGR".into()),
+                    session_id: None,
+                    timestamp: None,
+                    payload: PayloadContent::Verbose(vec![Argument {
+                        type_info: TypeInfo { kind: TypeInfoKind::StringType, coding: StringCoding::UTF8, has_variable_info: false, has_trace_info: false },
+                        name: None,
+                        unit: None,
+                        fixed_point: None,
+                        value: Value::StringVal(text.chars().take(40).collect()),
+                    }]),
+                    extended_header_info: Some(ExtendedHeaderConfig { message_type: MessageType::Log(LogLevel::Debug), app_id: "LOG".into(), context_id: "GER".into() }),
+                };
+                let m = Message::new(conf, None);
+                std::hint::black_box(m.as_bytes().len())
+            });
+            IN_LOGGER.with(|f| f.set(false));
+        }
     }
     fn flush(&self) {}
 }
@@ -92,11 +120,26 @@ fn main() {
             let _ = log::set_logger(&NULL);
             let inp = std::io::BufReader::new(std::fs::File::open(&args[3]).expect("open"));
             let mut f = BufWriter::new(std::fs::File::create(&args[4]).expect("create"));
-            for line in inp.lines() {
-                let line = line.unwrap();
-                if line.is_empty() || line.starts_with('#') {
-                    continue;
+            let all: Vec<String> = inp.lines().map(|l| l.unwrap()).filter(|l| !l.is_empty() && !l.starts_with('#')).collect();
+            // Warm-up: the first case is executed once under the Trace level before anything else and its result is
+            // discarded - a process whose very first call into the crate happens with tracing on (anything the crate
+            // decides once per process is decided there).
+            if let Some(first) = all.first() {
+                if let Some((op, rest)) = first.split_once(' ') {
+                    if let Ok(op) = op.parse::<u32>() {
+                        if !matches!(op, 34 | 35 | 43 | 44) {
+                            log::set_max_level(log::LevelFilter::Trace);
+                            let prop2 = prop.clone();
+                            let rest2 = rest.to_string();
+                            let _ = std::panic::catch_unwind(move || {
+                                let toks = wire::parse_toks(&rest2);
+                                ops::run_case(&prop2, op, &toks)
+                            });
+                        }
+                    }
                 }
+            }
+            for line in all {
                 let (op, rest) = match line.split_once(' ') {
                     Some((a, b)) => (a, b),
                     None => (line.as_str(), ""),
